@@ -6,10 +6,16 @@
    Acceptance is characterised rule by rule (the documented element-wise rules): None, literals,
    scalars (the C02 matrix), lists, variadic tuples here; fixed tuples, mappings, unions (C11),
    conditions (C13), tagged unions (C12), dataclass binding (C15) in the respective files.
-   PARTIAL: the rules are not assembled into one inductive `denotes` relation. *)
+   The rules are assembled into ONE membership relation [member] (Lemmas/Denotes.v, a
+   specification by recursion on the type that never mentions the loops of the fast pass) for
+   the structural fragment -- Any, None, scalars, literals, the four sequence classes, fixed
+   tuples, mappings, struct literal types, unions, conditions, closed under nesting -- and
+   [C01_accepts_exactly_the_members] says the fast pass accepts exactly its members and returns
+   exactly their image.  PARTIAL: enums, dataclasses and tagged unions are outside [structural];
+   their rules stay the separate theorems of C02 / C12 / C15. *)
 From Coq Require Import ZArith List Bool String.
 Require Import Base.Outcome Model.Values Model.Vocab Model.Types Model.Conv Gen.GenGates.
-Require Import Lemmas.AgreeLemmas Lemmas.AgreeThm Lemmas.StrictLemmas Lemmas.TypedLemmas.
+Require Import Lemmas.AgreeLemmas Lemmas.AgreeThm Lemmas.StrictLemmas Lemmas.TypedLemmas Lemmas.Denotes.
 Import ListNotations.
 
 (* every accepted value is mapped to the deep, exactly-typed image -- ALL types, ALL values *)
@@ -47,3 +53,35 @@ Theorem C01_accepts_variadic_tuple : forall e v x,
   gate_sequence (kind_of v) = true /\ exists ys, x = VTuple ys /\ Forall2 (fun vi yi => tc e vi = Ok yi) (items_of v) ys.
 Proof. exact accepts_vtuple. Qed.
 Print Assumptions C01_accepts_list.
+
+(* the rules assembled: on the structural fragment, at any nesting, for every value and every image *)
+Theorem C01_accepts_exactly_the_members : forall t, structural t ->
+  forall v x, tc t v = Ok x <-> member t v x.
+Proof. exact tc_exactly_member. Qed.
+Print Assumptions C01_accepts_exactly_the_members.
+(* ... hence from_data on a well-formed structural type: the image of a member, ConvertError otherwise *)
+Theorem C01_members_convert_and_non_members_are_refused : forall t v,
+  structural t -> wf_ty t ->
+  (exists x, member t v x /\ convert t v = COk x) \/ ((forall x, ~ member t v x) /\ exists e, convert t v = CErr e).
+Proof.
+  intros t v S WF. destruct (convert_total t v WF) as [[x H]|[e H]].
+  - left. exists x. split; [|exact H]. apply (tc_exactly_member t S).
+    unfold convert, convert_with in H. destruct (tc t v) as [y| |z]; try discriminate.
+    + now inversion H.
+    + destruct (ce t v); discriminate.
+  - right. split; [|eauto]. intros x M. apply (tc_exactly_member t S) in M.
+    unfold convert, convert_with in H. rewrite M in H. discriminate.
+Qed.
+Print Assumptions C01_members_convert_and_non_members_are_refused.
+Theorem C01_image_is_a_function_of_type_and_value : forall t, structural t ->
+  forall v x y, member t v x -> member t v y -> x = y.
+Proof. exact member_functional. Qed.
+Theorem C01_optional : forall t v x, structural t ->
+  member (TUnion [t; TNone]) v x <-> member t v x \/ (tc t v = Reject /\ v = VNone /\ x = VNone).
+Proof. exact member_optional. Qed.
+Example C01_member_example :
+  structural denotes_example_ty /\
+  member denotes_example_ty (VList [VTuple [VInt 1; VNone]; VList [VInt 2; VStr "a"]])
+                            (VList [VTuple [VInt 1; VNone]; VTuple [VInt 2; VStr "a"]]) /\
+  (forall x, ~ member denotes_example_ty (VList [VTuple [VStr "1"; VNone]]) x).
+Proof. exact (conj denotes_example_structural (conj denotes_example_member denotes_example_non_member)). Qed.
